@@ -234,3 +234,36 @@ const fn stream_from_code(code: u8) -> ProcessStream {
         _ => ProcessStream::Stderr,
     }
 }
+
+/// Verification hook (feature `verif-hooks`): the private capture loop `read_captured_stream` on a
+/// caller-supplied reader. The overflow flag is created here with the value `initial_flag`; the
+/// loop's result is returned together with the flag's final value.
+#[cfg(feature = "verif-hooks")]
+pub fn verif_read_captured_stream<R: Read>(
+    reader: R,
+    cap: u32,
+    overflow_code: u8,
+    initial_flag: u8,
+) -> (io::Result<std::vec::Vec<u8>>, u8) {
+    let overflow = Arc::new(AtomicU8::new(initial_flag));
+    let result = read_captured_stream(reader, cap, overflow_code, &overflow);
+    (result, overflow.load(Ordering::SeqCst))
+}
+
+/// Verification hook (feature `verif-hooks`): the private `join_capture` applied to a reader
+/// thread that ends with `result`, with the overflow flag at `flag`.
+///
+/// # Errors
+///
+/// Whatever `join_capture` reports for that reader result and flag.
+#[cfg(feature = "verif-hooks")]
+pub fn verif_join_capture<'arena>(
+    result: io::Result<std::vec::Vec<u8>>,
+    stream: ProcessStream,
+    flag: u8,
+    arena: &'arena Arena,
+) -> Result<Option<ArenaString<'arena>>, ProcessError> {
+    let overflow = AtomicU8::new(flag);
+    let handle = thread::spawn(move || result);
+    join_capture(Some(handle), stream, &overflow, arena)
+}
